@@ -147,31 +147,32 @@ Proof.
   repeat split; try lia; try assumption; try (right; repeat split; try lia; assumption).
 Qed.
 
-(* the swap-fee branch: the allocation of the epoch is the deposit the gauge holds *)
+(* the swap-fee branch: the allocation of the epoch is the deposit the gauge holds.  Three outcomes:
+   the distribution fails (nothing happens), the distribution is paid and the fee transfer fails (the
+   distribution is booked, the epoch not counted), both succeed *)
+Definition g_booked (g : gauge) (tot : Z) : gauge :=
+  mkGauge (g_deposit g - tot) (g_distributed g + tot) (g_triggered g) (g_total g) (g_active g) (g_start g)
+          (g_dur g) (g_swap g) (g_denom g).
+
 Lemma trigger_swap_spec calc recv bal g g' bal' paid :
   trigger_swap calc recv bal g = Ok (g', bal', paid) ->
-  (g' = g /\ bal' = bal - pay_total paid /\ 0 <= pay_total paid <= Z.max 0 (g_deposit g) /\ (0 <= bal -> 0 <= bal') /\
-   (pay_total paid = 0 \/ kf_C19_2 calc recv g = true \/ g_swap g = false)) \/
+  (g' = g /\ bal' = bal /\ paid = []) \/
+  (exists tot, is_ok recv = false /\ g' = g_booked g tot /\ 0 <= pay_total paid <= tot /\ tot <= Z.max 0 (g_deposit g) /\
+               bal' = bal - pay_total paid /\ (0 <= bal -> 0 <= bal')) \/
   (exists tot r, recv = Ok r /\ g' = g_swap_paid g tot r /\ 0 <= pay_total paid <= tot /\ tot <= Z.max 0 (g_deposit g) /\
                  (tot = 0 \/ 0 < g_deposit g) /\ bal' = bal - pay_total paid + r /\ (0 <= bal -> 0 <= bal' - r)).
 Proof.
   unfold trigger_swap.
   destruct (Z.ltb_spec 0 (g_deposit g)) as [Hd|Hd].
   - destruct (distribute calc (g_deposit g) bal) as [[[[tot b1] ps]|]| |] eqn:Ed; try discriminate.
-    2:{ intros E. injection E as <- <- <-. left. cbn. repeat split; try lia. }
-    pose proof (distribute_bal_indep calc (g_deposit g) bal (g_deposit g)) as Hi. rewrite Ed in Hi.
+    2:{ intros E. injection E as <- <- <-. left. auto. }
     apply distribute_spec in Ed. destruct Ed as (_ & D1 & D2 & D3 & D4).
     destruct recv as [r| |] eqn:Er; try discriminate.
-    + intros E. injection E as <- <- <-. right. exists tot, r. repeat split; try lia.
-    + intros E. injection E as <- <- <-. left. repeat split; try lia.
-      destruct (Z.eq_dec (pay_total ps) 0) as [|Hp]; [left; assumption|]. right.
-      destruct (g_swap g) eqn:Es; [left|right; reflexivity].
-      unfold kf_C19_2. rewrite Es. destruct (Z.ltb_spec 0 (g_deposit g)); [|lia]. cbn [andb is_ok negb].
-      destruct (distribute calc (g_deposit g) (g_deposit g)) as [[[[t2 b2] p2]|]| |]; try contradiction.
-      subst t2. apply Z.ltb_lt. lia.
+    + intros E. injection E as <- <- <-. right. right. exists tot, r. repeat split; try lia.
+    + intros E. injection E as <- <- <-. right. left. exists tot. repeat split; try lia.
   - destruct recv as [r| |]; try discriminate.
-    + intros E. injection E as <- <- <-. right. exists 0, r. cbn. repeat split; try lia.
-    + intros E. injection E as <- <- <-. left. cbn. repeat split; try lia.
+    + intros E. injection E as <- <- <-. right. right. exists 0, r. cbn. repeat split; try lia.
+    + intros E. injection E as <- <- <-. right. left. exists 0. cbn. repeat split; try lia.
 Qed.
 
 (* ---------------- invariants ---------------- *)
@@ -183,18 +184,16 @@ Definition BInv (b : bank) : Prop := forall d, 0 <= b d.
 Lemma g_rem_nonneg g : GInv g -> 0 <= g_rem g.
 Proof. unfold GInv, g_rem. destruct (g_swap g); lia. Qed.
 
-Lemma kf2_regular calc recv g : g_swap g = false -> kf_C19_2 calc recv g = false.
-Proof. intros H. unfold kf_C19_2. rewrite H. reflexivity. Qed.
-
 (* one gauge, one epoch: the remainder falls by at least what leaves the custody account *)
 Lemma trigger_any_step now calc recv bal g g' bal' paid :
   trigger_any now calc recv bal g = Ok (g', bal', paid) -> GInv g -> 0 <= bal -> recv_wf recv = true ->
-  kf_C19_2 calc recv g = false ->
   GInv g' /\ 0 <= bal' /\ g_rem g' - g_rem g <= bal' - bal /\ g_denom g' = g_denom g /\ g_dur g' = g_dur g.
 Proof.
-  unfold trigger_any, GInv, g_rem. intros E HG Hb Hw Hk. destruct (g_swap g) eqn:Es.
-  - apply trigger_swap_spec in E. destruct E as [(-> & B & C & B' & D)|(tot & r & -> & -> & C & D & F & G & G')].
-    + rewrite Es. destruct D as [D|[D|D]]; [|congruence|congruence]. repeat split; lia.
+  unfold trigger_any, GInv, g_rem. intros E HG Hb Hw. destruct (g_swap g) eqn:Es.
+  - apply trigger_swap_spec in E.
+    destruct E as [(-> & -> & _)|[(tot & _ & -> & C & D & B & B')|(tot & r & -> & -> & C & D & F & G & G')]].
+    + rewrite Es. repeat split; lia.
+    + cbn [g_booked g_swap g_deposit g_distributed g_denom g_dur]. rewrite Es. repeat split; lia.
     + cbn [recv_wf] in Hw. apply Z.leb_le in Hw. cbn [g_swap_paid g_swap g_deposit g_distributed g_denom g_dur]. rewrite Es.
       repeat split; lia.
   - apply trigger_spec in E. destruct E as (D1 & D2 & D3 & D4 & D5 & D6 & D7). cbv zeta in D7.
@@ -208,8 +207,9 @@ Lemma trigger_any_ginvr now calc recv bal g g' bal' paid :
   trigger_any now calc recv bal g = Ok (g', bal', paid) -> GInvR g -> GInvR g' /\ g_swap g' = g_swap g.
 Proof.
   unfold trigger_any, GInvR. intros E HG. destruct (g_swap g) eqn:Es.
-  - apply trigger_swap_spec in E. destruct E as [(-> & _)|(tot & r & _ & -> & _)].
+  - apply trigger_swap_spec in E. destruct E as [(-> & _)|[(tot & _ & -> & _)|(tot & r & _ & -> & _)]].
     + rewrite Es. split; [discriminate|reflexivity].
+    + cbn [g_booked g_swap]. rewrite Es. split; [discriminate|reflexivity].
     + cbn [g_swap_paid g_swap]. rewrite Es. split; [discriminate|reflexivity].
   - apply trigger_spec in E. destruct E as (D1 & D2 & D3 & D4 & D5 & D6 & D7). cbv zeta in D7.
     destruct D7 as (P1 & P2 & P3 & P4). rewrite D5, Es. split; [|reflexivity]. intros _. specialize (HG eq_refl).
@@ -238,26 +238,25 @@ Proof. unfold BInv, bset. intros H Hv x. destruct (x =? d); auto. Qed.
 (* InitateGaugesForDuration *)
 Lemma run_gauges_inv now dur : forall gs fe rv b gs' b' ps,
   run_gauges now dur gs fe rv b = Ok (gs', b', ps) ->
-  Forall GInv gs -> BInv b -> forallb recv_wf rv = true -> kf2_pass dur gs fe rv = false ->
+  Forall GInv gs -> BInv b -> forallb recv_wf rv = true ->
   Forall GInv gs' /\ BInv b' /\ (forall d, owed_g d gs' - owed_g d gs <= b' d - b d).
 Proof.
-  induction gs as [|g rest IH]; intros fe rv b gs' b' ps E HG HB Hw Hk; cbn [run_gauges] in E.
+  induction gs as [|g rest IH]; intros fe rv b gs' b' ps E HG HB Hw; cbn [run_gauges] in E.
   - injection E as <- <- <-. repeat split; [constructor|assumption|intros; lia].
-  - inversion HG as [|? ? Hg Hrest]; subst. cbn [kf2_pass] in Hk. apply orb_false_iff in Hk. destruct Hk as [Hk1 Hk2].
+  - inversion HG as [|? ? Hg Hrest]; subst.
     apply recv_wf_hd in Hw. destruct Hw as [Hw1 Hw2].
     destruct (Z.eqb_spec (g_dur g) dur) as [Hd|Hd].
-    + cbn [andb] in Hk1.
-      destruct (trigger_any now (farm_calc (hd_farm fe)) (hd_recv rv) (b (g_denom g)) g) as [[[g1 bal1] paid]| |] eqn:Et; try discriminate.
+    + destruct (trigger_any now (farm_calc (hd_farm fe)) (hd_recv rv) (b (g_denom g)) g) as [[[g1 bal1] paid]| |] eqn:Et; try discriminate.
       destruct (run_gauges now dur rest (tl fe) (tl rv) (bset b (g_denom g) bal1)) as [[[gs1 b1] ps1]| |] eqn:Er; try discriminate.
       injection E as <- <- <-.
-      pose proof (trigger_any_step _ _ _ _ _ _ _ _ Et Hg (HB _) Hw1 Hk1) as (T1 & T2 & T3 & T4 & T5).
-      specialize (IH _ _ _ _ _ _ Er Hrest (BInv_bset _ _ _ HB T2) Hw2 Hk2). destruct IH as (I1 & I2 & I3).
+      pose proof (trigger_any_step _ _ _ _ _ _ _ _ Et Hg (HB _) Hw1) as (T1 & T2 & T3 & T4 & T5).
+      specialize (IH _ _ _ _ _ _ Er Hrest (BInv_bset _ _ _ HB T2) Hw2). destruct IH as (I1 & I2 & I3).
       split; [constructor; assumption|]. split; [assumption|]. intros d. rewrite !owed_g_cons, T4. specialize (I3 d).
       destruct (Z.eqb_spec (g_denom g) d) as [He|Hne].
       * subst d. rewrite bset_same in I3. lia.
       * rewrite bset_other in I3 by congruence. lia.
     + destruct (run_gauges now dur rest (tl fe) (tl rv) b) as [[[gs1 b1] ps1]| |] eqn:Er; try discriminate.
-      injection E as <- <- <-. specialize (IH _ _ _ _ _ _ Er Hrest HB Hw2 Hk2). destruct IH as (I1 & I2 & I3).
+      injection E as <- <- <-. specialize (IH _ _ _ _ _ _ Er Hrest HB Hw2). destruct IH as (I1 & I2 & I3).
       split; [constructor; assumption|]. split; [assumption|]. intros d. rewrite !owed_g_cons. specialize (I3 d). lia.
 Qed.
 
@@ -278,21 +277,20 @@ Qed.
 (* TriggerAndUpdateEpochInfos *)
 Lemma run_epochs_inv now : forall es gs fe rv b es' gs' b' ps,
   run_epochs now es gs fe rv b = Ok (es', gs', b', ps) ->
-  Forall GInv gs -> BInv b -> forallb recv_wf rv = true -> kf2_epochs now es gs fe rv b = false ->
+  Forall GInv gs -> BInv b -> forallb recv_wf rv = true ->
   Forall GInv gs' /\ BInv b' /\ (forall d, owed_g d gs' - owed_g d gs <= b' d - b d).
 Proof.
-  induction es as [|e rest IH]; intros gs fe rv b es' gs' b' ps E HG HB Hw Hk; cbn [run_epochs] in E.
+  induction es as [|e rest IH]; intros gs fe rv b es' gs' b' ps E HG HB Hw; cbn [run_epochs] in E.
   - injection E as <- <- <- <-. repeat split; [assumption|assumption|intros; lia].
-  - cbn [kf2_epochs] in Hk. destruct (epoch_tick now e) as [e1 r]. cbn [snd] in Hk.
+  - destruct (epoch_tick now e) as [e1 r].
     destruct r.
     1,2,4: (destruct (run_epochs now rest gs fe rv b) as [[[[es1 gs2] b2] ps2]| |] eqn:Er; try discriminate;
-            injection E as <- <- <- <-; exact (IH _ _ _ _ _ _ _ _ Er HG HB Hw Hk)).
-    apply orb_false_iff in Hk. destruct Hk as [Hk1 Hk2].
+            injection E as <- <- <- <-; exact (IH _ _ _ _ _ _ _ _ Er HG HB Hw)).
     destruct (run_gauges now (e_dur e) gs fe rv b) as [[[gs1 b1] ps1]| |] eqn:Eg; try discriminate.
     destruct (run_epochs now rest gs1 fe rv b1) as [[[[es1 gs2] b2] ps2]| |] eqn:Er; try discriminate.
     injection E as <- <- <- <-.
-    pose proof (run_gauges_inv _ _ _ _ _ _ _ _ _ Eg HG HB Hw Hk1) as (G1 & G2 & G3).
-    pose proof (IH _ _ _ _ _ _ _ _ Er G1 G2 Hw Hk2) as (I1 & I2 & I3).
+    pose proof (run_gauges_inv _ _ _ _ _ _ _ _ _ Eg HG HB Hw) as (G1 & G2 & G3).
+    pose proof (IH _ _ _ _ _ _ _ _ Er G1 G2 Hw) as (I1 & I2 & I3).
     split; [assumption|]. split; [assumption|]. intros d. specialize (G3 d). specialize (I3 d). lia.
 Qed.
 
@@ -310,6 +308,8 @@ Proof.
 Qed.
 
 (* ---------------- external programs ---------------- *)
+Lemma P18_ge_1000 : 1000 <= P18. Proof. vm_compute. discriminate. Qed.
+
 Lemma ext_loop_spec x now total : forall pop bal tracker b t ps,
   ext_loop x now total pop bal tracker = Ok (b, t, ps) ->
   b = bal - pay_total ps /\ 0 <= pay_total ps <= t - tracker /\ (0 <= bal -> 0 <= b).
@@ -326,50 +326,130 @@ Proof.
       injection E as <- <- <-. apply IH in Er. cbn [map snd zsum]. lia.
 Qed.
 
-(* what is booked does not depend on the custody balance *)
-Lemma ext_loop_indep x now total : forall pop b1 b2 tr,
-  match ext_loop x now total pop b1 tr, ext_loop x now total pop b2 tr with
-  | Ok (_, t1, _), Ok (_, t2, _) => t1 = t2
-  | Err _, Err _ => True
-  | Panic, Panic => True
-  | _, _ => False
-  end.
+(* one owner (fix C19-F3: multiply, then divide, both truncating): f * 10^18 * total <= er * net *)
+Lemma ext_final_bound kind avail dleft total net f : ext_final kind avail dleft total net = Ok f ->
+  0 <= net -> 0 <= total -> 0 <= avail -> 0 < dleft ->
+  let er := dquo (dec_of_int avail) (dec_of_int dleft) in
+  0 < total /\ 0 <= f /\ f * P18 * total <= er * net.
 Proof.
-  induction pop as [|[[a net] created] rest IH]; intros b1 b2 tr; cbn [ext_loop]; [reflexivity|].
-  destruct (negb (x_count x =? x_days x - 1) && (now - created <? x_minlock x)); [apply IH|].
-  destruct (ext_final _ _ _ _ _) as [f| |]; auto.
-  destruct (0 <? f); [|apply IH].
-  set (p1 := if f <=? b1 then (b1 - f, f) else (b1, 0)). set (p2 := if f <=? b2 then (b2 - f, f) else (b2, 0)).
-  destruct p1 as [c1 g1], p2 as [c2 g2]. specialize (IH c1 c2 (tr + f)).
-  destruct (ext_loop x now total rest c1 (tr + f)) as [[[? ?] ?]| |], (ext_loop x now total rest c2 (tr + f)) as [[[? ?] ?]| |]; auto.
+  unfold ext_final. intros E Hn Ht Ha Hd.
+  destruct (int64_c net) as [n|] eqn:E1; [|discriminate].
+  destruct (if kind =? 0 then int64_c total else Some total) as [t|] eqn:E2; [|discriminate].
+  destruct (int64_c avail) as [a|] eqn:E3; [|discriminate].
+  assert (n = net) by (unfold int64_c in E1; destruct (_ && _); congruence).
+  assert (t = total) by (destruct (kind =? 0); [unfold int64_c in E2; destruct (_ && _); congruence|congruence]).
+  assert (a = avail) by (unfold int64_c in E3; destruct (_ && _); congruence). subst n t a.
+  destruct (Z.eqb_spec total 0); [discriminate|]. injection E as <-. cbv zeta.
+  pose proof (dquo_ints_bounds avail dleft Ha Hd) as [R0 _]. cbv zeta in R0.
+  set (er := dquo (dec_of_int avail) (dec_of_int dleft)) in *.
+  assert (HT : 0 < total) by lia. dec_consts.
+  unfold dmul_int, dquo_int, dtrunc_int.
+  assert (0 <= er * net) by nia.
+  rewrite (Z.quot_div_nonneg (er * net) total) by lia.
+  pose proof (Z.div_pos (er * net) total ltac:(lia) HT) as Q0.
+  pose proof (Z.div_mod (er * net) total ltac:(lia)). pose proof (Z.mod_pos_bound (er * net) total HT).
+  set (q := er * net / total) in *.
+  rewrite (Z.quot_div_nonneg q P18) by lia.
+  pose proof (Z.div_pos q P18 Q0 ltac:(lia)). pose proof (Z.div_mod q P18 ltac:(lia)). pose proof (Z.mod_pos_bound q P18 ltac:(lia)).
+  set (f := q / P18) in *. split; [assumption|]. split; [assumption|].
+  assert (f * P18 <= q) by lia. assert (q * total <= er * net) by lia.
+  assert (f * P18 * total <= q * total) by (apply Z.mul_le_mono_nonneg_r; lia). lia.
+Qed.
+
+(* the loop: what is booked, times 10^18 * total, is at most er * (sum of the owners' balances) *)
+Lemma ext_loop_bound x now total : forall pop bal tr b t ps,
+  ext_loop x now total pop bal tr = Ok (b, t, ps) ->
+  Forall (fun u => 0 <= snd (fst u)) pop -> 0 <= total -> 0 <= x_avail x -> 0 < x_days x - x_count x ->
+  let er := dquo (dec_of_int (x_avail x)) (dec_of_int (x_days x - x_count x)) in
+  tr <= t /\ (t - tr) * P18 * total <= er * pop_net pop /\ (total = 0 -> t = tr).
+Proof.
+  intros pop. induction pop as [|[[a net] created] rest IH]; intros bal tr b t ps E Hnn Ht Ha Hd; cbn [ext_loop] in E.
+  - injection E as <- <- <-. unfold pop_net. cbn. lia.
+  - inversion Hnn as [|? ? Hn Hrest]; subst. cbn [fst snd] in Hn. cbv zeta.
+    set (er := dquo (dec_of_int (x_avail x)) (dec_of_int (x_days x - x_count x))).
+    assert (Hp : pop_net ((a, net, created) :: rest) = net + pop_net rest) by reflexivity.
+    assert (R0 : 0 <= er) by (unfold er; apply dquo_nonneg; unfold dec_of_int; dec_consts; nia).
+    assert (Skip : ext_loop x now total rest bal tr = Ok (b, t, ps) ->
+              tr <= t /\ (t - tr) * P18 * total <= er * pop_net ((a, net, created) :: rest) /\ (total = 0 -> t = tr)).
+    { intros E'. destruct (IH _ _ _ _ _ E' Hrest Ht Ha Hd) as (I1 & I2 & I3). fold er in I2. split; [assumption|].
+      split; [|assumption]. rewrite Hp. nia. }
+    destruct (negb (x_count x =? x_days x - 1) && (now - created <? x_minlock x)); [exact (Skip E)|].
+    destruct (ext_final (x_kind x) (x_avail x) (x_days x - x_count x) total net) as [f| |] eqn:Ef; try discriminate.
+    destruct (Z.ltb_spec 0 f); [|exact (Skip E)].
+    pose proof (ext_final_bound _ _ _ _ _ _ Ef Hn Ht Ha Hd) as (F0 & F1 & F2). fold er in F2.
+    set (p := if f <=? bal then (bal - f, f) else (bal, 0)) in E. destruct p as [bal1 got].
+    destruct (ext_loop x now total rest bal1 (tr + f)) as [[[b1 t1] ps1]| |] eqn:Er; try discriminate.
+    injection E as <- <- <-. destruct (IH _ _ _ _ _ Er Hrest Ht Ha Hd) as (I1 & I2 & I3). fold er in I2.
+    split; [lia|]. split; [rewrite Hp; nia|lia].
+Qed.
+
+Lemma xenv_wf_spec e : xenv_wf e = true ->
+  Forall (fun u => 0 <= snd (fst u)) (xe_pop e) /\ 0 <= pop_net (xe_pop e) <= xe_total e.
+Proof.
+  unfold xenv_wf. intros H. apply andb_true_iff in H. destruct H as [H1 H2]. apply Z.leb_le in H2.
+  assert (Hnn : Forall (fun u => 0 <= snd (fst u)) (xe_pop e)).
+  { apply Forall_forall. intros u Hu. rewrite forallb_forall in H1. specialize (H1 u Hu). lia. }
+  split; [assumption|]. split; [|assumption].
+  unfold pop_net. clear -Hnn. induction Hnn as [|u l Hu _ IH]; cbn [map zsum]; lia.
+Qed.
+
+(* fix C19-F3: a locker / vault program whose population is consistent with the recorded total never
+   books more than it has left, whatever the amounts, the number of owners and the days left *)
+Lemma ext_tick_wf now e bal x x' bal' paid :
+  ext_tick now e bal x = Ok (x', bal', paid) -> xenv_wf e = true -> 0 <= x_avail x ->
+  0 <= x_avail x' <= x_avail x /\ 0 <= pay_total paid <= x_avail x - x_avail x' /\ bal' = bal - pay_total paid /\
+  (0 <= bal -> 0 <= bal') /\ x_denom x' = x_denom x /\ x_kind x' = x_kind x.
+Proof.
+  unfold ext_tick. intros E Hwf Ha. apply xenv_wf_spec in Hwf. destruct Hwf as (Hnn & Hs0 & Hs1).
+  destruct (negb (x_active x)). { injection E as <- <- <-. cbn. repeat split; lia. }
+  destruct (negb (x_next x <? now)). { injection E as <- <- <-. cbn. repeat split; lia. }
+  destruct (Z.ltb_spec (x_count x) (x_days x)).
+  2:{ injection E as <- <- <-. cbn. repeat split; lia. }
+  destruct (ext_loop x now (xe_total e) (xe_pop e) bal 0) as [[[b1 t1] ps1]| |] eqn:El; try discriminate.
+  injection E as <- <- <-. cbn [x_avail x_denom x_kind].
+  pose proof (ext_loop_spec _ _ _ _ _ _ _ _ _ El) as (S1 & S2 & S3).
+  pose proof (ext_loop_bound _ _ _ _ _ _ _ _ _ El Hnn ltac:(lia) Ha ltac:(lia)) as (B0 & B1 & B2). cbv zeta in B1.
+  set (D := x_days x - x_count x) in *. set (A := x_avail x) in *. set (T := xe_total e) in *. set (S := pop_net (xe_pop e)) in *.
+  assert (HD : 1 <= D) by (unfold D; lia).
+  pose proof (dquo_ints_bounds A D Ha ltac:(lia)) as [R0 R1]. cbv zeta in R0, R1.
+  set (er := dquo (dec_of_int A) (dec_of_int D)) in *.
+  assert (Hle : t1 <= A).
+  { destruct (Z.eq_dec T 0) as [HT0|HT0]; [rewrite (B2 HT0); lia|].
+    assert (HT : 0 < T) by lia.
+    assert (M1 : er * S <= er * T) by (apply Z.mul_le_mono_nonneg_l; lia).
+    assert (C1 : t1 * P18 * T <= er * T) by lia.
+    assert (C2 : t1 * P18 <= er) by (apply (Z.mul_le_mono_pos_r _ _ T); assumption).
+    assert (C3 : t1 * P18 * D <= er * D) by (apply Z.mul_le_mono_nonneg_r; lia).
+    clearbody D A T S er. dec_consts. pose proof P18_ge_1000.
+    destruct (Z.le_gt_cases t1 A) as [|Hgt]; [assumption|exfalso].
+    assert (C4 : (A + 1) * (P18 * D) <= t1 * (P18 * D)) by (apply Z.mul_le_mono_nonneg_r; nia).
+    assert (C5 : A * P18 * 1 <= A * P18 * D) by (apply Z.mul_le_mono_nonneg_l; nia).
+    assert (C6 : 1000 * D <= P18 * D) by (apply Z.mul_le_mono_nonneg_r; lia).
+    lia. }
+  repeat split; lia.
 Qed.
 
 Lemma ext_tick_step now e bal x x' bal' paid :
-  ext_tick now e bal x = Ok (x', bal', paid) -> XInv x -> 0 <= bal -> kf_C19_3 now e x = false ->
+  ext_tick now e bal x = Ok (x', bal', paid) -> XInv x -> 0 <= bal -> xenv_wf e = true ->
   XInv x' /\ 0 <= bal' /\ x_avail x' - x_avail x <= bal' - bal /\ x_denom x' = x_denom x /\ x_kind x' = x_kind x.
 Proof.
-  unfold XInv, kf_C19_3, ext_tick. intros E HX Hb Hk.
-  destruct (negb (x_active x)). { injection E as <- <- <-. repeat split; lia. }
-  destruct (negb (x_next x <? now)). { injection E as <- <- <-. repeat split; lia. }
-  destruct (x_count x <? x_days x).
-  2:{ injection E as <- <- <-. cbn. repeat split; lia. }
-  pose proof (ext_loop_indep x now (xe_total e) (xe_pop e) bal 0 0) as Hi.
-  destruct (ext_loop x now (xe_total e) (xe_pop e) bal 0) as [[[b1 t1] ps1]| |] eqn:El; try discriminate.
-  injection E as <- <- <-. apply ext_loop_spec in El. cbn [x_avail x_denom x_kind].
-  destruct (ext_loop x now (xe_total e) (xe_pop e) 0 0) as [[[b2 t2] ps2]| |]; try contradiction.
-  subst t2. cbn [x_avail] in Hk. apply Z.ltb_ge in Hk. repeat split; lia.
+  unfold XInv. intros E HX Hb Hw. pose proof (ext_tick_wf _ _ _ _ _ _ _ E Hw HX) as (A & B & C & D & F & G).
+  repeat split; lia.
 Qed.
+
+Lemma xenv_wf_hd xe : forallb xenv_wf xe = true -> xenv_wf (hd_xenv xe) = true /\ forallb xenv_wf (tl xe) = true.
+Proof. destruct xe as [|r xe]; cbn; [auto|]. intros H. apply andb_true_iff in H. exact H. Qed.
 
 Lemma run_exts_inv kind now : forall xs xe b xs' b' ps,
   run_exts kind now xs xe b = Ok (xs', b', ps) ->
-  Forall XInv xs -> BInv b -> kf3_pass kind now xs xe = false ->
+  Forall XInv xs -> BInv b -> forallb xenv_wf xe = true ->
   Forall XInv xs' /\ BInv b' /\ (forall d, owed_x d xs' - owed_x d xs <= b' d - b d).
 Proof.
   induction xs as [|x rest IH]; intros xe b xs' b' ps E HX HB Hk; cbn [run_exts] in E.
   - injection E as <- <- <-. repeat split; [constructor|assumption|intros; lia].
-  - inversion HX as [|? ? Hx Hrest]; subst. cbn [kf3_pass] in Hk. apply orb_false_iff in Hk. destruct Hk as [Hk1 Hk2].
+  - inversion HX as [|? ? Hx Hrest]; subst. apply xenv_wf_hd in Hk. destruct Hk as [Hk1 Hk2].
     destruct (Z.eqb_spec (x_kind x) kind) as [Hd|Hd].
-    + cbn [andb] in Hk1.
+    + destruct (xe_halt (hd_xenv xe)); [discriminate|].
       destruct (ext_tick now (hd_xenv xe) (b (x_denom x)) x) as [[[x1 bal1] paid]| |] eqn:Et; try discriminate.
       destruct (run_exts kind now rest (tl xe) (bset b (x_denom x) bal1)) as [[[xs1 b1] ps1]| |] eqn:Er; try discriminate.
       injection E as <- <- <-.
@@ -463,6 +543,7 @@ Proof.
   - inversion HX as [|? ? Hx Hrest]; subst. cbn [kf4_pass] in Hk.
     destruct (Z.eqb_spec (x_kind x) 2) as [Hd|Hd].
     + apply orb_false_iff in Hk. destruct Hk as [Hk1 Hk2].
+      destruct (le_halt (hd_lenv le)); [discriminate|].
       pose proof (lend_tick_indep now (hd_lenv le) arr tot (b (x_denom x)) 0 x) as Hi.
       destruct (lend_tick now (hd_lenv le) arr tot (b (x_denom x)) x) as [[[[[[x1 bal1] paid] arr1] tot1]|]| |] eqn:Et; try discriminate.
       2:{ injection E as <- <- <-. repeat split; [assumption|assumption|intros; lia]. }
@@ -485,21 +566,41 @@ Qed.
 Definition RInv (s : rstate) : Prop :=
   Forall GInv (r_gauges s) /\ Forall XInv (r_exts s) /\ BInv (r_bal s) /\ forall d, owed d s <= r_bal s d.
 
+(* one of the steps 2-4 of the hook: it keeps its writes (and then the step invariant applies) or it
+   is rolled back as a whole *)
+Lemma sub_step_cases {A} (r : outcome (A * bank * dpays)) xs b :
+  (exists v, r = Ok v /\ sub_step r xs b = v) \/ (is_ok r = false /\ sub_step r xs b = (xs, b, [])).
+Proof. destruct r as [v| |]; [left; exists v; auto|right; auto|right; auto]. Qed.
+
 Lemma begin_block_inv now e s s' ps :
-  begin_block now e s = Ok (s', ps) -> RInv s -> forallb recv_wf (be_recv e) = true ->
-  kf2_begin now e s = false -> kf3_begin now e s = false -> kf4_begin now e s = false -> RInv s'.
+  begin_block now e s = Ok (s', ps) -> RInv s -> forallb recv_wf (be_recv e) = true -> forallb xenv_wf (be_ext e) = true ->
+  kf4_begin now e s = false -> RInv s'.
 Proof.
-  unfold begin_block, kf2_begin, kf3_begin, kf4_begin, RInv, owed. intros E (HG & HX & HB & HO) Hw K2 K3 K4.
+  unfold begin_block, kf4_begin, RInv, owed. intros E (HG & HX & HB & HO) Hw Hxw K4.
   destruct (run_epochs now (r_epochs s) (r_gauges s) (be_farm e) (be_recv e) (r_bal s)) as [[[[es gs] b1] p1]| |] eqn:E1; try discriminate.
-  apply orb_false_iff in K3. destruct K3 as [K3a K3b].
-  destruct (run_exts 0 now (r_exts s) (be_ext e) b1) as [[[xs1 b2] p2]| |] eqn:E2; try discriminate.
-  destruct (run_exts 1 now xs1 (be_ext e) b2) as [[[xs2 b3] p3]| |] eqn:E3; try discriminate.
-  destruct (run_lends now xs2 (be_lend e) [] 0 b3) as [[[xs3 b4] p4]| |] eqn:E4; try discriminate.
+  pose proof (run_epochs_inv _ _ _ _ _ _ _ _ _ _ E1 HG HB Hw) as (A1 & A2 & A3).
+  (* step 2: lockers *)
+  assert (S2 : let '(xs1, b2, _) := sub_step (run_exts 0 now (r_exts s) (be_ext e) b1) (r_exts s) b1 in
+               Forall XInv xs1 /\ BInv b2 /\ (forall d, owed_x d xs1 - owed_x d (r_exts s) <= b2 d - b1 d)).
+  { destruct (sub_step_cases (run_exts 0 now (r_exts s) (be_ext e) b1) (r_exts s) b1) as [([[xs1 b2] p2] & Er & ->)|(Ef & ->)].
+    - exact (run_exts_inv _ _ _ _ _ _ _ _ Er HX A2 Hxw).
+    - repeat split; try assumption. intros; lia. }
+  destruct (sub_step (run_exts 0 now (r_exts s) (be_ext e) b1) (r_exts s) b1) as [[xs1 b2] p2]. destruct S2 as (B1 & B2 & B3).
+  (* step 3: vaults *)
+  assert (S3 : let '(xs2, b3, _) := sub_step (run_exts 1 now xs1 (be_ext e) b2) xs1 b2 in
+               Forall XInv xs2 /\ BInv b3 /\ (forall d, owed_x d xs2 - owed_x d xs1 <= b3 d - b2 d)).
+  { destruct (sub_step_cases (run_exts 1 now xs1 (be_ext e) b2) xs1 b2) as [([[xs2 b3] p3] & Er & ->)|(Ef & ->)].
+    - exact (run_exts_inv _ _ _ _ _ _ _ _ Er B1 B2 Hxw).
+    - repeat split; try assumption. intros; lia. }
+  destruct (sub_step (run_exts 1 now xs1 (be_ext e) b2) xs1 b2) as [[xs2 b3] p3]. destruct S3 as (C1 & C2 & C3).
+  (* step 4: lend programs *)
+  assert (S4 : let '(xs3, b4, _) := sub_step (run_lends now xs2 (be_lend e) [] 0 b3) xs2 b3 in
+               Forall XInv xs3 /\ BInv b4 /\ (forall d, owed_x d xs3 - owed_x d xs2 <= b4 d - b3 d)).
+  { destruct (sub_step_cases (run_lends now xs2 (be_lend e) [] 0 b3) xs2 b3) as [([[xs3 b4] p4] & Er & ->)|(Ef & ->)].
+    - rewrite Er in K4. cbn [is_ok andb] in K4. exact (run_lends_inv _ _ _ _ _ _ _ _ _ Er C1 C2 K4).
+    - repeat split; try assumption. intros; lia. }
+  destruct (sub_step (run_lends now xs2 (be_lend e) [] 0 b3) xs2 b3) as [[xs3 b4] p4]. destruct S4 as (D1 & D2 & D3).
   injection E as <- <-. cbn [r_bal r_gauges r_exts].
-  pose proof (run_epochs_inv _ _ _ _ _ _ _ _ _ _ E1 HG HB Hw K2) as (A1 & A2 & A3).
-  pose proof (run_exts_inv _ _ _ _ _ _ _ _ E2 HX A2 K3a) as (B1 & B2 & B3).
-  pose proof (run_exts_inv _ _ _ _ _ _ _ _ E3 B1 B2 K3b) as (C1 & C2 & C3).
-  pose proof (run_lends_inv _ _ _ _ _ _ _ _ _ E4 C1 C2 K4) as (D1 & D2 & D3).
   repeat split; try assumption. intros d. specialize (HO d). specialize (A3 d). specialize (B3 d). specialize (C3 d). specialize (D3 d). lia.
 Qed.
 
@@ -527,8 +628,8 @@ Proof.
     + intros x. unfold bset. specialize (HB x). destruct (Z.eqb_spec x d); [subst x|]; lia.
     + intros x. rewrite owed_x_app, owed_x_cons. replace (owed_x x []) with 0 by reflexivity. cbn [x_denom x_avail].
       specialize (HO x). unfold owed in HO. unfold bset. rewrite (Z.eqb_sym d x). destruct (Z.eqb_spec x d); [subst x|]; lia.
-  - intros H. cbn [kf_step] in Hk. apply orb_false_iff in Hk. destruct Hk as [Hk K4]. apply orb_false_iff in Hk. destruct Hk as [K2 K3].
-    cbn [op_wf] in Hw. eapply begin_block_inv; eassumption.
+  - intros H. cbn [kf_step] in Hk. cbn [op_wf] in Hw. apply andb_true_iff in Hw. destruct Hw as [Hw1 Hw2].
+    eapply begin_block_inv; eassumption.
   - destruct (Z.ltb_spec a 0); [discriminate|]. intros H'. injection H' as <- <-.
     unfold RInv, owed. cbn [r_bal r_gauges r_exts]. repeat split; try assumption.
     + intros x. unfold bset. specialize (HB x). destruct (Z.eqb_spec x d); [subst x|]; lia.
@@ -580,15 +681,156 @@ Proof.
   - apply Z.leb_le. specialize (HO d). unfold owed in HO. pose proof (owed_active_le d _ _ HG HX). lia.
 Qed.
 
+(* ---------------- histories without lend programs meet no class ---------------- *)
+Lemma ext_tick_kind now e bal x x' bal' paid : ext_tick now e bal x = Ok (x', bal', paid) -> x_kind x' = x_kind x.
+Proof.
+  unfold ext_tick. intros E.
+  destruct (negb (x_active x)). { injection E as <- <- <-. reflexivity. }
+  destruct (negb (x_next x <? now)). { injection E as <- <- <-. reflexivity. }
+  destruct (x_count x <? x_days x).
+  2:{ injection E as <- <- <-. reflexivity. }
+  destruct (ext_loop x now (xe_total e) (xe_pop e) bal 0) as [[[b1 t1] ps1]| |]; try discriminate.
+  injection E as <- <- <-. reflexivity.
+Qed.
+
+Lemma run_exts_kinds kind now : forall xs xe b xs' b' ps,
+  run_exts kind now xs xe b = Ok (xs', b', ps) -> map x_kind xs' = map x_kind xs.
+Proof.
+  induction xs as [|x rest IH]; intros xe b xs' b' ps E; cbn [run_exts] in E.
+  - injection E as <- <- <-. reflexivity.
+  - destruct (x_kind x =? kind).
+    + destruct (xe_halt (hd_xenv xe)); [discriminate|].
+      destruct (ext_tick now (hd_xenv xe) (b (x_denom x)) x) as [[[x1 bal1] paid]| |] eqn:Et; try discriminate.
+      destruct (run_exts kind now rest (tl xe) (bset b (x_denom x) bal1)) as [[[xs1 b1] ps1]| |] eqn:Er; try discriminate.
+      injection E as <- <- <-. cbn [map]. rewrite (ext_tick_kind _ _ _ _ _ _ _ Et), (IH _ _ _ _ _ Er). reflexivity.
+    + destruct (run_exts kind now rest (tl xe) b) as [[[xs1 b1] ps1]| |] eqn:Er; try discriminate.
+      injection E as <- <- <-. cbn [map]. rewrite (IH _ _ _ _ _ Er). reflexivity.
+Qed.
+
+Lemma lend_tick_kind now e arr tot bal x x' bal' paid arr' tot' :
+  lend_tick now e arr tot bal x = Ok (Some (x', bal', paid, arr', tot')) -> x_kind x' = x_kind x.
+Proof.
+  unfold lend_tick.
+  destruct (negb (x_active x)). { intros E; injection E as <- <- <- <- <-. reflexivity. }
+  destruct (negb (x_next x <? now)). { intros E; injection E as <- <- <- <- <-. reflexivity. }
+  destruct (x_count x <? x_days x).
+  2:{ intros E; injection E as <- <- <- <- <-. reflexivity. }
+  destruct (negb (le_ok e)); [discriminate|].
+  destruct (le_price e) as [[twa decimals]|]. 2:{ intros E; injection E as <- <- <- <- <-. reflexivity. }
+  destruct (decimals =? 0); [discriminate|].
+  destruct (_ <=? 0). { intros E; injection E as <- <- <- <- <-. reflexivity. }
+  match goal with |- context [lend_loop ?apr ?arr bal 0] => destruct (lend_loop apr arr bal 0) as [[c1 t1] p1] end.
+  intros E; injection E as <- <- <- <- <-. reflexivity.
+Qed.
+
+Lemma run_lends_kinds now : forall xs le arr tot b xs' b' ps,
+  run_lends now xs le arr tot b = Ok (xs', b', ps) -> map x_kind xs' = map x_kind xs.
+Proof.
+  induction xs as [|x rest IH]; intros le arr tot b xs' b' ps E; cbn [run_lends] in E.
+  - injection E as <- <- <-. reflexivity.
+  - destruct (x_kind x =? 2).
+    + destruct (le_halt (hd_lenv le)); [discriminate|].
+      destruct (lend_tick now (hd_lenv le) arr tot (b (x_denom x)) x) as [[[[[[x1 bal1] paid] arr1] tot1]|]| |] eqn:Et; try discriminate.
+      2:{ injection E as <- <- <-. reflexivity. }
+      destruct (run_lends now rest (tl le) arr1 tot1 (bset b (x_denom x) bal1)) as [[[xs1 b1] ps1]| |] eqn:Er; try discriminate.
+      injection E as <- <- <-. cbn [map]. rewrite (lend_tick_kind _ _ _ _ _ _ _ _ _ _ _ Et), (IH _ _ _ _ _ _ _ Er). reflexivity.
+    + destruct (run_lends now rest (tl le) arr tot b) as [[[xs1 b1] ps1]| |] eqn:Er; try discriminate.
+      injection E as <- <- <-. cbn [map]. rewrite (IH _ _ _ _ _ _ _ Er). reflexivity.
+Qed.
+
+Lemma sub_step_kinds (r : outcome (list ext * bank * dpays)) xs b :
+  (forall xs' b' ps, r = Ok (xs', b', ps) -> map x_kind xs' = map x_kind xs) ->
+  map x_kind (fst (fst (sub_step r xs b))) = map x_kind xs.
+Proof. intros H. destruct r as [[[xs' b'] ps]| |]; cbn; [eapply H; reflexivity|reflexivity|reflexivity]. Qed.
+
+Definition NoLend (xs : list ext) : Prop := Forall (fun k => k <> 2) (map x_kind xs).
+
+Lemma kf4_pass_no_lend now : forall xs le arr tot, NoLend xs -> kf4_pass now xs le arr tot = false.
+Proof.
+  unfold NoLend. induction xs as [|x rest IH]; intros le arr tot H; cbn [kf4_pass]; [reflexivity|].
+  cbn [map] in H. inversion H as [|? ? Hk Hrest]; subst.
+  destruct (Z.eqb_spec (x_kind x) 2); [contradiction|]. apply IH. assumption.
+Qed.
+
+(* the programs a BeginBlocker leaves have the kinds they had *)
+Lemma begin_block_kinds now e s s' ps : begin_block now e s = Ok (s', ps) -> map x_kind (r_exts s') = map x_kind (r_exts s).
+Proof.
+  unfold begin_block. intros E.
+  destruct (run_epochs now (r_epochs s) (r_gauges s) (be_farm e) (be_recv e) (r_bal s)) as [[[[es gs] b1] p1]| |]; try discriminate.
+  pose proof (sub_step_kinds (run_exts 0 now (r_exts s) (be_ext e) b1) (r_exts s) b1 (run_exts_kinds _ _ _ _ _)) as K1.
+  destruct (sub_step (run_exts 0 now (r_exts s) (be_ext e) b1) (r_exts s) b1) as [[xs1 b2] p2]. cbn [fst] in K1.
+  pose proof (sub_step_kinds (run_exts 1 now xs1 (be_ext e) b2) xs1 b2 (run_exts_kinds _ _ _ _ _)) as K2.
+  destruct (sub_step (run_exts 1 now xs1 (be_ext e) b2) xs1 b2) as [[xs2 b3] p3]. cbn [fst] in K2.
+  pose proof (sub_step_kinds (run_lends now xs2 (be_lend e) [] 0 b3) xs2 b3 (run_lends_kinds _ _ _ _ _ _)) as K3.
+  destruct (sub_step (run_lends now xs2 (be_lend e) [] 0 b3) xs2 b3) as [[xs3 b4] p4]. cbn [fst] in K3.
+  injection E as <- <-. cbn [r_exts]. congruence.
+Qed.
+
+Lemma kf4_begin_no_lend now e s : NoLend (r_exts s) -> kf4_begin now e s = false.
+Proof.
+  unfold kf4_begin. intros H.
+  destruct (run_epochs now (r_epochs s) (r_gauges s) (be_farm e) (be_recv e) (r_bal s)) as [[[[es gs] b1] p1]| |]; try reflexivity.
+  pose proof (sub_step_kinds (run_exts 0 now (r_exts s) (be_ext e) b1) (r_exts s) b1 (run_exts_kinds _ _ _ _ _)) as K1.
+  destruct (sub_step (run_exts 0 now (r_exts s) (be_ext e) b1) (r_exts s) b1) as [[xs1 b2] p2]. cbn [fst] in K1.
+  pose proof (sub_step_kinds (run_exts 1 now xs1 (be_ext e) b2) xs1 b2 (run_exts_kinds _ _ _ _ _)) as K2.
+  destruct (sub_step (run_exts 1 now xs1 (be_ext e) b2) xs1 b2) as [[xs2 b3] p3]. cbn [fst] in K2.
+  rewrite kf4_pass_no_lend; [apply andb_false_r|]. unfold NoLend in *. congruence.
+Qed.
+
+Lemma rapply_no_lend s o : NoLend (r_exts s) -> no_lend_op o = true -> NoLend (r_exts (rapply s o)).
+Proof.
+  intros H Ho. unfold rapply. destruct (rstep s o) as [[s' ps]| |] eqn:E; try assumption.
+  destruct o as [d dep total start now dur funds meta|d now dur|kind d total days minlock now funds ok|now e|d a]; cbn [rstep] in E.
+  - destruct (_ || _); [discriminate|]. injection E as <- <-. assumption.
+  - injection E as <- <-. assumption.
+  - destruct (_ || _); [discriminate|]. injection E as <- <-. cbn [r_exts]. unfold NoLend in *. rewrite map_app.
+    apply Forall_app. split; [assumption|]. cbn [map x_kind]. constructor; [|constructor].
+    cbn [no_lend_op] in Ho. destruct (Z.eqb_spec kind 2); [discriminate|assumption].
+  - unfold NoLend in *. rewrite (begin_block_kinds _ _ _ _ _ E). assumption.
+  - destruct (a <? 0); [discriminate|]. injection E as <- <-. assumption.
+Qed.
+
+Lemma run_clean_no_lend ops : forall s, NoLend (r_exts s) -> forallb no_lend_op ops = true -> run_clean s ops = true.
+Proof.
+  induction ops as [|o ops IH]; intros s H Hn; cbn [run_clean]; [reflexivity|].
+  cbn [forallb] in Hn. apply andb_true_iff in Hn. destruct Hn as [Hn1 Hn2].
+  apply andb_true_iff. split; [|apply IH; [apply rapply_no_lend; assumption|assumption]].
+  apply negb_true_iff. destruct o; try reflexivity. cbn [kf_step]. apply kf4_begin_no_lend. assumption.
+Qed.
+
+(* custody with no class excluded: every history of gauges (incl. swap-fee gauges) and locker / vault programs *)
+Lemma custody_no_lend ops d : forallb op_wf ops = true -> forallb no_lend_op ops = true ->
+  let s := rrun rinit ops in
+  owed d s <= r_bal s d /\ holds_C19_custody d (r_bal s d) (r_gauges s) (r_exts s) = true.
+Proof.
+  intros Hw Hn. apply custody_clean; [assumption|]. apply run_clean_no_lend; [constructor|assumption].
+Qed.
+
 (* cumulative distributed <= deposit for every non-swap-fee gauge, EVERY history (no class excluded) *)
+(* the gauges and epochs a BeginBlocker leaves are those of TriggerAndUpdateEpochInfos alone: no
+   external program, whatever it does (error, panic, overdraw), touches them or stops the hook *)
+Lemma begin_block_gauges now e s :
+  match run_epochs now (r_epochs s) (r_gauges s) (be_farm e) (be_recv e) (r_bal s) with
+  | Ok (es, gs, _, _) => exists s' ps, begin_block now e s = Ok (s', ps) /\ r_gauges s' = gs /\ r_epochs s' = es
+  | Err c => begin_block now e s = Err c
+  | Panic => begin_block now e s = Panic
+  end.
+Proof.
+  unfold begin_block.
+  destruct (run_epochs now (r_epochs s) (r_gauges s) (be_farm e) (be_recv e) (r_bal s)) as [[[[es gs] b1] p1]| |]; try reflexivity.
+  destruct (sub_step (run_exts 0 now (r_exts s) (be_ext e) b1) (r_exts s) b1) as [[xs1 b2] p2].
+  destruct (sub_step (run_exts 1 now xs1 (be_ext e) b2) xs1 b2) as [[xs2 b3] p3].
+  destruct (sub_step (run_lends now xs2 (be_lend e) [] 0 b3) xs2 b3) as [[xs3 b4] p4].
+  eexists _, _. split; [reflexivity|]. split; reflexivity.
+Qed.
+
 Lemma begin_block_ginvr now e s s' ps : begin_block now e s = Ok (s', ps) -> Forall GInvR (r_gauges s) -> Forall GInvR (r_gauges s').
 Proof.
-  unfold begin_block. intros E HG.
-  destruct (run_epochs now (r_epochs s) (r_gauges s) (be_farm e) (be_recv e) (r_bal s)) as [[[[es gs] b1] p1]| |] eqn:E1; try discriminate.
-  destruct (run_exts 0 now (r_exts s) (be_ext e) b1) as [[[xs1 b2] p2]| |]; try discriminate.
-  destruct (run_exts 1 now xs1 (be_ext e) b2) as [[[xs2 b3] p3]| |]; try discriminate.
-  destruct (run_lends now xs2 (be_lend e) [] 0 b3) as [[[xs3 b4] p4]| |]; try discriminate.
-  injection E as <- <-. cbn [r_gauges]. eapply run_epochs_ginvr; eassumption.
+  intros E HG. pose proof (begin_block_gauges now e s) as Hb.
+  destruct (run_epochs now (r_epochs s) (r_gauges s) (be_farm e) (be_recv e) (r_bal s)) as [[[[es gs] b1] p1]| |] eqn:E1;
+    [|rewrite Hb in E; discriminate|rewrite Hb in E; discriminate].
+  destruct Hb as (s2 & ps2 & Hb & Hg & _). rewrite Hb in E. injection E as <- <-. rewrite Hg.
+  eapply run_epochs_ginvr; eassumption.
 Qed.
 
 Lemma rapply_ginvr s o : Forall GInvR (r_gauges s) -> Forall GInvR (r_gauges (rapply s o)).
@@ -776,7 +1018,8 @@ Proof.
   pose proof (share_general coins total s Hc Ht ltac:(lia)) as [P0 P1]. cbv zeta in P1.
   set (p := share_reward coins total s) in *.
   unfold kf_C19_1 in Hk. assert (Hk' : total <= coins * 400000 * P18) by lia.
-  unfold holds_C19_share. apply andb_true_intro. split; [lia|]. apply Z.leb_le.
+  unfold holds_C19_share. apply andb_true_intro. split; [lia|].
+  destruct (Z.leb_spec total 0); [lia|]. apply Z.leb_le.
   pose proof share_num_fact as NF.
   (* bracket <= s * coins * P18 * (P18 + 600000) *)
   assert (B1 : s * total <= s * (coins * 400000 * P18)) by (apply Z.mul_le_mono_nonneg_l; lia).
@@ -824,22 +1067,47 @@ Proof.
     intros f Hf. apply filter_In in Hf. tauto.
 Qed.
 
+(* a non-empty result means somebody has an eligible value *)
+Lemma farm_calc_total e coins ps : farm_calc e coins = Ok ps -> ps <> [] -> zsum (map snd (eligible e)) <> 0.
+Proof.
+  intros E Hne. destruct e as [|fs|fs child]; cbn [farm_calc eligible] in *; [discriminate| |].
+  - destruct (Z.eqb_spec (zsum (map snd fs)) 0); [injection E as <-; contradiction|assumption].
+  - set (ms := combine (map fst fs) (min_supplies (map snd fs) child)) in *.
+    destruct (Z.eqb_spec (zsum (map snd ms)) 0); [injection E as <-; contradiction|assumption].
+Qed.
+
+(* a farmer without eligible value is paid nothing *)
+Lemma share_reward_zero coins total : 0 <= coins -> 0 < total -> share_reward coins total 0 = 0.
+Proof.
+  intros Hc Ht. pose proof (share_general coins total 0 Hc Ht ltac:(lia)) as [P0 P1]. cbv zeta in P1.
+  set (p := share_reward coins total 0) in *. dec_consts. pose proof P36_eq as E36. pose proof F_P53_pos.
+  destruct (Z.eq_dec p 0) as [|Hp]; [assumption|exfalso]. assert (1 <= p) by lia.
+  assert (A1 : 1 * (P36 * total * F_P53) <= p * (P36 * total * F_P53)) by (apply Z.mul_le_mono_nonneg_r; nia).
+  assert (A2 : 2 * HALF18 * (total * (F_P53 + 1)) <= P36 * (total * F_P53)).
+  { rewrite E36. assert (F_P53 + 1 <= 2 * F_P53) by lia. assert (2 * HALF18 = P18) by lia.
+    assert (P18 * (total * (F_P53 + 1)) <= P18 * (total * (2 * F_P53))) by (apply Z.mul_le_mono_nonneg_l; nia).
+    assert (P18 * 2 <= P18 * P18) by (apply Z.mul_le_mono_nonneg_l; lia). nia. }
+  nia.
+Qed.
+
 Lemma farm_share_bound e coins ps a r : farm_calc e coins = Ok ps -> In (a, r) ps -> 0 <= coins ->
   Forall (fun f => 0 <= snd f) (eligible e) ->
   let total := zsum (map snd (eligible e)) in
-  exists s, In (a, s) (eligible e) /\
+  0 < total /\
+  exists s, In (a, s) (eligible e) /\ (s = 0 -> r = 0) /\
     (P18 <= s -> kf_C19_1 coins total = false -> holds_C19_share coins total s r = true).
 Proof.
-  intros E Hin Hc Hnn total. destruct (farm_calc_share _ _ _ E _ _ Hin) as (s & Hs & -> & _).
-  exists s. split; [assumption|]. intros Hs1 Hk. fold total.
+  intros E Hin Hc Hnn total.
   assert (Ht : 0 <= total).
   { unfold total. clear -Hnn. induction Hnn as [|f l Hf _ IH]; cbn [map zsum]; lia. }
   assert (Hpos : 0 < total).
-  { assert (s <= total); [|dec_consts; lia]. unfold total. clear -Hnn Hs.
-    induction Hnn as [|f l Hf Hl IH]; [contradiction|]. cbn [map zsum].
-    assert (0 <= zsum (map snd l)) by (clear -Hl; induction Hl; cbn [map zsum]; lia).
-    destruct Hs as [->|Hs]; [cbn [snd]; lia|]. specialize (IH Hs). lia. }
-  apply share_bound; assumption.
+  { pose proof (farm_calc_total _ _ _ E) as Hn. fold total in Hn.
+    assert (ps <> []) by (intros ->; contradiction). specialize (Hn H). lia. }
+  split; [assumption|].
+  destruct (farm_calc_share _ _ _ E _ _ Hin) as (s & Hs & -> & _).
+  exists s. split; [assumption|]. fold total. split.
+  - intros ->. apply share_reward_zero; assumption.
+  - intros Hs1 Hk. apply share_bound; assumption.
 Qed.
 
 Lemma epoch_cap : forall now calc bal g g' bal' paid,
@@ -860,18 +1128,20 @@ Qed.
 
 Lemma epoch_cap_swapfee : forall calc recv bal g g' bal' paid,
   g_swap g = true -> 0 <= g_deposit g -> trigger_swap calc recv bal g = Ok (g', bal', paid) ->
-  kf_C19_2 calc recv g = false ->
-  0 <= pay_total paid <= g_distributed g' - g_distributed g /\
-  g_distributed g' - g_distributed g <= g_deposit g /\
-  ((g' = g /\ bal' = bal) \/
-   exists r, recv = Ok r /\ g_triggered g' = g_triggered g + 1 /\
-             g_deposit g' = g_deposit g - (g_distributed g' - g_distributed g) + r /\ bal' = bal - pay_total paid + r).
+  let d := g_distributed g' - g_distributed g in
+  0 <= pay_total paid <= d /\ d <= g_deposit g /\ bal' = bal - pay_total paid + (g_deposit g' - (g_deposit g - d)) /\
+  ((g' = g /\ paid = []) \/
+   (is_ok recv = false /\ g_triggered g' = g_triggered g /\ g_deposit g' = g_deposit g - d) \/
+   (exists r, recv = Ok r /\ g_triggered g' = g_triggered g + 1 /\ g_deposit g' = g_deposit g - d + r)).
 Proof.
-  intros calc recv bal g g' bal' paid Hs Hd E Hk.
-  apply trigger_swap_spec in E. destruct E as [(E1 & B & C & B' & D)|(tot & r & E1 & E2 & C & D & F & G & G')].
-  - subst g'. destruct D as [D|[D|D]]; [|congruence|congruence]. split; [lia|]. split; [lia|]. left. split; [reflexivity|lia].
-  - subst g' recv. cbn [g_swap_paid g_distributed g_deposit g_triggered]. split; [lia|]. split; [lia|]. right. exists r.
-    repeat split; lia.
+  intros calc recv bal g g' bal' paid Hs Hd E. cbv zeta.
+  apply trigger_swap_spec in E.
+  destruct E as [(-> & -> & ->)|[(tot & Hr & -> & C & D & B & B')|(tot & r & -> & -> & C & D & F & G & G')]].
+  - unfold pay_total. cbn [map zsum]. split; [lia|]. split; [lia|]. split; [lia|]. left. auto.
+  - cbn [g_booked g_distributed g_deposit g_triggered]. split; [lia|]. split; [lia|]. split; [lia|].
+    right. left. split; [assumption|]. split; [reflexivity|lia].
+  - cbn [g_swap_paid g_distributed g_deposit g_triggered]. split; [lia|]. split; [lia|]. split; [lia|].
+    right. right. exists r. split; [reflexivity|]. split; [reflexivity|lia].
 Qed.
 
 Lemma cumulative_all : forall ops g, In g (r_gauges (rrun rinit ops)) -> g_swap g = false ->
@@ -879,131 +1149,6 @@ Lemma cumulative_all : forall ops g, In g (r_gauges (rrun rinit ops)) -> g_swap 
 Proof.
   intros ops g Hin Hs. pose proof (rrun_ginvr ops rinit ltac:(constructor)) as HG.
   rewrite Forall_forall in HG. exact (HG g Hin Hs).
-Qed.
-
-Lemma custody_swapfee_refuted : exists ops d, forallb op_wf ops = true /\ run_clean rinit ops = false /\
-  let s := rrun rinit ops in
-  r_bal s d < owed d s /\ holds_C19_custody d (r_bal s d) (r_gauges s) (r_exts s) = false.
-Proof.
-  exists [CreateSwap 1 0 86400; Create 1 1000 5 400000 0 129600 1000 true;
-          Begin 10 (mkBenv [] [] []); Begin 50000 (mkBenv [FarmErr; FarmErr] [Ok 500; Err 1] []);
-          Begin 140000 (mkBenv [FarmPlain [(7, 1000000000000000000)]; FarmErr] [Err 1; Err 1] []);
-          Begin 230000 (mkBenv [FarmPlain [(7, 1000000000000000000)]; FarmErr] [Err 1; Err 1] [])], 1.
-  vm_compute. repeat split.
-Qed.
-
-Lemma custody_program_refuted : exists ops d, forallb op_wf ops = true /\ run_clean rinit ops = false /\
-  let s := rrun rinit ops in
-  r_bal s d < owed_g d (r_gauges s) /\ holds_C19_custody d (r_bal s d) (r_gauges s) (r_exts s) = false.
-Proof.
-  exists [ExtCreate 0 5 5000000000000000000 1 1 0 5000000000000000000 true; Create 5 1000 3 500000 0 86400 1000 true;
-          Begin 10 (mkBenv [FarmErr] [] [mkXenv 6000000 [(11,1000000,0);(12,1000000,0);(13,1000000,0);(14,1000000,0);(15,1000000,0);(16,1000000,0)]]);
-          Begin 86401 (mkBenv [FarmErr] [] [mkXenv 6000000 [(11,1000000,0);(12,1000000,0);(13,1000000,0);(14,1000000,0);(15,1000000,0);(16,1000000,0)]])], 5.
-  vm_compute. repeat split.
-Qed.
-
-(* ---------------- when a program cannot overdraw ---------------- *)
-(* one owner: f * 10^36 * total <= er * (10^18 * net + total) + 10^18/2 * total *)
-Lemma ext_final_bound kind avail dleft total net f : ext_final kind avail dleft total net = Ok f ->
-  0 <= net -> 0 < total -> 0 <= avail -> 0 < dleft ->
-  let er := dquo (dec_of_int avail) (dec_of_int dleft) in
-  0 <= er /\ er * dleft <= avail * P18 + dleft /\
-  f * P36 * total <= er * (P18 * net + total) + HALF18 * total.
-Proof.
-  unfold ext_final. intros E Hn Ht Ha Hd.
-  destruct (int64_c net) as [n|] eqn:E1; [|discriminate].
-  destruct (if kind =? 0 then int64_c total else Some total) as [t|] eqn:E2; [|discriminate].
-  destruct (int64_c avail) as [a|] eqn:E3; [|discriminate].
-  assert (n = net) by (unfold int64_c in E1; destruct (_ && _); congruence).
-  assert (t = total) by (destruct (kind =? 0); [unfold int64_c in E2; destruct (_ && _); congruence|congruence]).
-  assert (a = avail) by (unfold int64_c in E3; destruct (_ && _); congruence). subst n t a.
-  destruct (Z.eqb_spec total 0); [discriminate|]. injection E as <-. cbv zeta.
-  pose proof (dquo_ints_bounds net total Hn Ht) as [S0 S1]. cbv zeta in S0, S1.
-  pose proof (dquo_ints_bounds avail dleft Ha Hd) as [R0 R1]. cbv zeta in R0, R1.
-  set (share := dquo (dec_of_int net) (dec_of_int total)) in *.
-  set (er := dquo (dec_of_int avail) (dec_of_int dleft)) in *.
-  pose proof (dmul_bounds share er) as Bm. pose proof (dmul_nonneg share er S0 R0) as Nm.
-  pose proof (dtrunc_int_bounds (dmul share er) Nm) as [T0 T1].
-  set (f := dtrunc_int (dmul share er)) in *. dec_consts. pose proof P36_eq as E36.
-  split; [assumption|]. split; [lia|].
-  assert (F1 : f * P36 <= share * er + HALF18) by (rewrite E36; nia).
-  assert (F2 : share * total * er <= (net * P18 + total) * er) by (apply Z.mul_le_mono_nonneg_r; lia).
-  nia.
-Qed.
-
-Lemma ext_loop_bound x now total : forall pop bal tr b t ps,
-  ext_loop x now total pop bal tr = Ok (b, t, ps) ->
-  Forall (fun u => 0 <= snd (fst u)) pop -> 0 < total -> 0 <= x_avail x -> 0 < x_days x - x_count x ->
-  let er := dquo (dec_of_int (x_avail x)) (dec_of_int (x_days x - x_count x)) in
-  tr <= t /\ (t - tr) * P36 * total <= er * (P18 * pop_net pop + zlen pop * total) + zlen pop * HALF18 * total.
-Proof.
-  intros pop. induction pop as [|[[a net] created] rest IH]; intros bal tr b t ps E Hnn Ht Ha Hd; cbn [ext_loop] in E.
-  - injection E as <- <- <-. cbn. unfold pop_net, zlen. cbn. lia.
-  - inversion Hnn as [|? ? Hn Hrest]; subst. cbn [fst snd] in Hn. cbv zeta.
-    set (er := dquo (dec_of_int (x_avail x)) (dec_of_int (x_days x - x_count x))).
-    assert (Hl : zlen ((a, net, created) :: rest) = zlen rest + 1) by (unfold zlen; cbn [length]; lia).
-    assert (Hp : pop_net ((a, net, created) :: rest) = net + pop_net rest) by reflexivity.
-    assert (Hl0 : 0 <= zlen rest) by (unfold zlen; lia).
-    assert (R0 : 0 <= er).
-    { unfold er. apply dquo_nonneg; unfold dec_of_int; dec_consts; nia. }
-    dec_consts.
-    assert (Skip : forall tr', ext_loop x now total rest bal tr' = Ok (b, t, ps) -> tr' = tr ->
-              tr <= t /\ (t - tr) * P36 * total <= er * (P18 * pop_net ((a, net, created) :: rest) + zlen ((a, net, created) :: rest) * total)
-                                            + zlen ((a, net, created) :: rest) * HALF18 * total).
-    { intros tr' E' ->. destruct (IH _ _ _ _ _ E' Hrest Ht Ha Hd) as [I1 I2]. fold er in I2. split; [assumption|].
-      rewrite Hl, Hp. nia. }
-    destruct (negb (x_count x =? x_days x - 1) && (now - created <? x_minlock x)); [apply (Skip tr E eq_refl)|].
-    destruct (ext_final (x_kind x) (x_avail x) (x_days x - x_count x) total net) as [f| |] eqn:Ef; try discriminate.
-    destruct (Z.ltb_spec 0 f); [|apply (Skip tr E eq_refl)].
-    pose proof (ext_final_bound _ _ _ _ _ _ Ef Hn Ht Ha Hd) as (_ & _ & F). fold er in F.
-    set (p := if f <=? bal then (bal - f, f) else (bal, 0)) in E. destruct p as [bal1 got].
-    destruct (ext_loop x now total rest bal1 (tr + f)) as [[[b1 t1] ps1]| |] eqn:Er; try discriminate.
-    injection E as <- <- <-. destruct (IH _ _ _ _ _ Er Hrest Ht Ha Hd) as [I1 I2]. fold er in I2.
-    split; [lia|]. rewrite Hl, Hp. nia.
-Qed.
-
-Lemma P18_ge_1000 : 1000 <= P18. Proof. vm_compute. discriminate. Qed.
-
-Lemma ext_safe_no_overdraw now e x : ext_safe e x = true -> kf_C19_3 now e x = false.
-Proof.
-  unfold ext_safe. intros H. repeat (apply andb_true_iff in H; destruct H as [H ?]).
-  apply Z.leb_le in H. rename H into Ha.
-  assert (Hnn : Forall (fun u => 0 <= snd (fst u)) (xe_pop e)).
-  { apply Forall_forall. intros u Hu. rewrite forallb_forall in H4. specialize (H4 u Hu). lia. }
-  unfold kf_C19_3, ext_tick.
-  destruct (negb (x_active x)); [lia|]. destruct (negb (x_next x <? now)); [lia|].
-  destruct (Z.ltb_spec (x_count x) (x_days x)); [|cbn; lia].
-  destruct (ext_loop x now (xe_total e) (xe_pop e) 0 0) as [[[b t] ps]| |] eqn:El; try reflexivity.
-  cbn [x_avail]. apply Z.ltb_ge.
-  pose proof (ext_loop_bound _ _ _ _ _ _ _ _ _ El Hnn ltac:(lia) Ha ltac:(lia)) as [B0 B1]. cbv zeta in B1.
-  set (D := x_days x - x_count x) in *. set (A := x_avail x) in *. set (k := zlen (xe_pop e)) in *.
-  set (T := xe_total e) in *. set (S := pop_net (xe_pop e)) in *.
-  assert (HD : 1 <= D) by (unfold D; lia).
-  pose proof (dquo_ints_bounds A D Ha ltac:(lia)) as [R0 R1]. cbv zeta in R0, R1.
-  set (er := dquo (dec_of_int A) (dec_of_int D)) in *.
-  assert (Hk : 0 <= k) by (unfold k, zlen; lia).
-  assert (HT : 0 < T) by lia. assert (HS : S <= T) by lia.
-  assert (K0 : 4 * k * A <= P18) by lia. assert (K0' : 4 * k <= P18) by lia.
-  clearbody D A k T S er. clear - B0 B1 HD R0 R1 Hk HT HS K0 K0' Ha.
-  dec_consts. pose proof P36_eq as E36. pose proof P18_ge_1000 as Hp. rewrite E36 in *.
-  set (p := P18) in *. set (h := HALF18) in *. clearbody p h.
-  assert (M1 : er * S <= er * T) by (apply Z.mul_le_mono_nonneg_l; lia).
-  assert (M2 : er * p * S <= er * p * T) by (replace (er * p * S) with (p * (er * S)) by ring; replace (er * p * T) with (p * (er * T)) by ring; apply Z.mul_le_mono_nonneg_l; lia).
-  assert (C1 : t * (p * p) * T <= (er * (p + k) + k * h) * T) by lia.
-  assert (C2 : t * (p * p) <= er * (p + k) + k * h) by (apply (Z.mul_le_mono_pos_r _ _ T); assumption).
-  assert (M3 : er * D * (p + k) <= (A * p + D) * (p + k)) by (apply Z.mul_le_mono_nonneg_r; lia).
-  assert (M4 : t * (p * p) * D <= (er * (p + k) + k * h) * D) by (apply Z.mul_le_mono_nonneg_r; lia).
-  assert (C3 : t * (p * p) * D <= (A * p + D) * (p + k) + k * h * D) by lia.
-  destruct (Z.le_gt_cases t A) as [|Hgt]; [lia|exfalso].
-  assert (C4 : (A + 1) * (p * p * D) <= t * (p * p * D)) by (apply Z.mul_le_mono_nonneg_r; nia).
-  assert (F1 : 4 * k * A * p <= p * p) by (apply Z.mul_le_mono_nonneg_r; lia).
-  assert (F2 : 4 * k * p * D <= p * p * D) by (apply Z.mul_le_mono_nonneg_r; [lia|]; apply Z.mul_le_mono_nonneg_r; lia).
-  assert (F3 : 4 * k * D <= p * D) by (apply Z.mul_le_mono_nonneg_r; lia).
-  assert (F4 : A * (p * p) * 1 <= A * (p * p) * D) by (apply Z.mul_le_mono_nonneg_l; nia).
-  assert (F5 : 1000 * (D * p) <= p * (D * p)) by (apply Z.mul_le_mono_nonneg_r; nia).
-  assert (F6 : p * p * 1 <= p * p * D) by (apply Z.mul_le_mono_nonneg_l; nia).
-  assert (F7 : k * h * D * 2 = k * p * D) by (subst p; ring_simplify; lia).
-  lia.
 Qed.
 
 (* class C19-F4 witness: 1 000 000 of a reward token priced 2.0, one day, one borrower: 2 000 000 are paid *)
